@@ -192,15 +192,24 @@ def r2(ctx):
     # side to move
     d = summary(ctx, DISP, R)
     side_ok = {}
+    STMF = ('field', SELF, 'side_to_move')
     for c, parts in writes(d):
         if parts in ([('lit', 'w ')], [('lit', 'b ')]):
-            for g in guards(d, c['blk'], transitive=False):
-                if g['cond'] is None:
-                    continue
-                m = match(call('<color::Color as core::cmp::PartialEq>::eq', ('field', SELF, 'side_to_move'), V('c')), norm(g['cond']))
-                if m is not None and m['c'] in (W, B):
-                    col = m['c'][2] if truth(g) else ('Black' if m['c'][2] == 'White' else 'White')
-                    side_ok[parts[0][1]] = col
+            # for which side to move is this write reached?  (the test may be ==, !=, a match, negated, with swapped arms)
+            reached = []
+            for colour in ('White', 'Black'):
+                def decide(c_, vals, colour=colour):
+                    cn = norm(c_)
+                    if cn[0] == 'call' and 'PartialEq' in cn[1] and (cn[1].endswith('::eq') or cn[1].endswith('::ne')) and len(cn[2]) == 2:
+                        for x, y in ((cn[2][0], cn[2][1]), (cn[2][1], cn[2][0])):
+                            if x == STMF and y in (W, B):
+                                return as_bool((y[2] == colour) == cn[1].endswith('::eq'), vals)
+                    if cn == ('discr', STMF):
+                        return ctx.facts().enum_discr(COLOR, colour)
+                    return None
+                if any(conj_possible(conj, decide) for conj in dnf(d, c['blk'])):
+                    reached.append(colour)
+            side_ok[parts[0][1]] = reached[0] if len(reached) == 1 else reached
     if side_ok == {'w ': 'White', 'b ': 'Black'}:
         ctx.ok(R, "writer side field: 'w ' iff White to move, 'b ' iff Black", where(d.body))
     else:
@@ -325,9 +334,18 @@ def r3(ctx):
             seq.append(('<multi>', in_loop, c))
     spine = [x[0] for x in seq if not x[1]]
     loop_parts = [x[0] for x in seq if x[1]]
-    want_spine = [' ', 'w ', 'b ', '<rights White>', '<rights Black>', '-', ' ', '<ep>', '-', ' 0 1']
-    alt = [' ', 'w ', 'b ', '<rights White>', '<rights Black>', '-', ' ', '-', '<ep>', ' 0 1']
-    if spine in (want_spine, alt):
+    # writes in the two arms of one decision are alternatives: group neighbours that cannot both execute
+    groups = []
+    for x in [y for y in seq if not y[1]]:
+        b_ = x[2]['blk']
+        if groups and all(not cfg.can_reach(o[2]['blk'], b_) and not cfg.can_reach(b_, o[2]['blk']) for o in groups[-1]):
+            groups[-1].append(x)
+        else:
+            groups.append([x])
+    gspine = [frozenset(o[0] for o in g) for g in groups]
+    F = frozenset
+    want_g = [F([' ']), F(['w ', 'b ']), F(['<rights White>']), F(['<rights Black>']), F(['-']), F([' ']), F(['<ep>', '-']), F([' 0 1'])]
+    if gspine == want_g:
         ctx.ok(R, "writer spine after the placement: ' ', side, White rights, Black rights, ['-'], ' ', ep|'-', ' 0 1'", where(s.body))
     else:
         ctx.violation(R, DISP + ':spine', 'FEN fields are written as %s' % spine, where(s.body))
@@ -380,30 +398,40 @@ def r3(ctx):
                 is_castle_dash = True
         if not is_castle_dash:
             continue
-        foreign = False
-        slots = None
-        for conj in disj:
-            cs = set()
-            for g in conj:
-                if g['cond'] is None:
-                    continue
-                cn = norm(il.inline(g['cond']))
-                idxs = [x for x in walk(cn) if x[0] == 'index' and x[1] == ('field', SELF, 'castle_rights')]
-                if idxs and cn[0] == 'bin':
-                    nr = ctx.facts().enum_discr('castle_rights::CastleRights', 'NoRights')
-                    m = match(('bin', 'Eq', ('discr', V('slot')), ('int', nr, 'isize')), cn)
-                    if m is not None and g['truth'] is True and m['slot'][2][0] == 'int':
-                        cs.add(m['slot'][2][1])
-                    else:
-                        foreign = True
-            slots = cs if slots is None else (slots & cs)
-        slots = slots or set()
+        # reachability of the '-' write under the four valuations of (White has no rights, Black has no rights)
+        nr = ctx.facts().enum_discr('castle_rights::CastleRights', 'NoRights')
+        foreign = []
+        bad = []
+        for wn in (True, False):
+            for bn in (True, False):
+                def decide(c_, vals, wn=wn, bn=bn):
+                    cn = norm(il.inline(c_))
+                    for op in ('Eq', 'Ne'):
+                        m = match(('bin', op, ('discr', V('slot')), ('int', nr, 'isize')), cn)
+                        if m is not None and m['slot'][0] == 'index' and m['slot'][1] == ('field', SELF, 'castle_rights') and m['slot'][2][0] == 'int':
+                            none_here = wn if m['slot'][2][1] == 0 else bn
+                            return as_bool(none_here == (op == 'Eq'), vals)
+                    if cn[0] == 'call' and 'PartialEq' in cn[1] and (cn[1].endswith('::eq') or cn[1].endswith('::ne')) and len(cn[2]) == 2:
+                        for x, y in ((cn[2][0], cn[2][1]), (cn[2][1], cn[2][0])):
+                            if x[0] == 'index' and x[1] == ('field', SELF, 'castle_rights') and x[2][0] == 'int' and \
+                                    y == ENUM('castle_rights::CastleRights', 'NoRights'):
+                                none_here = wn if x[2][1] == 0 else bn
+                                return as_bool(none_here == cn[1].endswith('::eq'), vals)
+                    if (cn[0] == 'bin' or (cn[0] == 'call' and 'PartialEq' in cn[1])) and \
+                            any(x[0] == 'index' and x[1] == ('field', SELF, 'castle_rights') for x in walk(cn)):
+                        foreign.append(cn)
+                    return None
+                reach = any(conj_possible(conj, decide) for conj in disj)
+                if reach != (wn and bn):
+                    bad.append((wn, bn, reach))
         if is_castle_dash:
-            if slots == {0, 1} and not foreign:
+            if not bad and not foreign:
                 ctx.ok(R, "castling field is '-' exactly when both colours have NoRights", where(s.body, c['line']))
+            elif foreign and not bad:
+                ctx.inconclusive(R, "the castling '-' depends on a test of the rights that is not understood: " + sh(foreign[0], 120))
             else:
                 ctx.violation(R, DISP + ':castling-dash', "the castling '-' is written under a condition other than `both sides have no rights` "
-                              "(slots tested: %s)" % sorted(slots), where(s.body, c['line']))
+                              "(e.g. White none=%s, Black none=%s -> written=%s)" % bad[0], where(s.body, c['line']))
     for c, parts in ws:
         if parts == [('lit', '/')]:
             gs = [g for g in guards(s, c['blk'], transitive=False) if g['cond'] is not None]
